@@ -11,10 +11,10 @@
    inter-token white space, escapes inside an address string, the literal null in place of an
    address or an amount (decoded as the zero address / 0), arbitrary metadata values, and --
    below the JSON layer -- alternative base58 spellings of one address (oracle; see the report).
-   (b) encode_decode is NOT proved: Model.Codec.encode is compared with json.Marshal, and Go's
-   own re-encoding is re-decoded, on every accepted case of the correspondence run
-   (Corr.Codec.json_agrees / json_canonical_on); a proof needs the parser round trip
-   parse_json (print j) = Some j, which is not in Lemmas/ yet. *)
+   (b) the round trip decode (encode b) = Some b is proved in Props/C20roundtrip.v (parser round
+   trip parse_json (print j) = Some j included); Model.Codec.encode is in addition compared with
+   json.Marshal, and Go's own re-encoding is re-decoded, on every accepted case of the
+   correspondence run (Corr.Codec.json_agrees / json_canonical_on). *)
 From Coq Require Import ZArith List Bool.
 From Model Require Import Codec Db.
 From Lemmas Require Import CodecLemmas.
